@@ -1077,7 +1077,11 @@ class PackBasedObjectStore(PackCapableObjectStore, PackedObjectContainer):
         for alternate in self.alternates:
             if sha in alternate:
                 return True
-        return False
+        # A concurrent repack may have moved the object from a loose file
+        # into a pack between the two probes above. The pack is in place
+        # before the loose file is removed, so looking at the packs once
+        # more (this rescans the pack directory) settles it, as in git.
+        return self.contains_packed(sha)
 
     def _add_cached_pack(self, base_name: str, pack: Pack) -> None:
         """Add a newly appeared pack to the cache by path."""
@@ -1436,6 +1440,14 @@ class PackBasedObjectStore(PackCapableObjectStore, PackedObjectContainer):
                 return alternate.get_raw(hexsha)
             except KeyError:
                 pass
+        # A concurrent repack may have moved the object from a loose file
+        # into a pack between the two probes above. The pack is in place
+        # before the loose file is removed, so looking at the packs once
+        # more (this rescans the pack directory) settles it, as in git.
+        try:
+            return self._lookup_in_packs(lambda p: p.get_raw(sha))
+        except KeyError:
+            pass
         raise KeyError(hexsha)
 
     def iter_unpacked_subset(
@@ -1541,6 +1553,13 @@ class PackBasedObjectStore(PackCapableObjectStore, PackedObjectContainer):
                 todo.remove(o.id)
         for oid in todo:
             loose_obj: ShaFile | None = self._get_loose_object(oid)
+            if loose_obj is None:
+                # Packed by a concurrent repack since the packs were searched
+                # above? Look at the packs once more.
+                try:
+                    loose_obj = self._lookup_in_packs(lambda p, oid=oid: p[oid])
+                except KeyError:
+                    pass
             if loose_obj is not None:
                 yield loose_obj
             elif not allow_missing:
